@@ -13,12 +13,12 @@ import (
 
 // FnCFG is the CFG of one function body plus derived relations.
 type FnCFG struct {
-	G    *cfg.CFG
-	Body *ast.BlockStmt
-	Info *types.Info
+	G       *cfg.CFG
+	Body    *ast.BlockStmt
+	Info    *types.Info
 	domSets [][]uint64 // domSets[i] = blocks dominating block i
-	live []bool
-	pred [][]int32
+	live    []bool
+	pred    [][]int32
 }
 
 // CFGOf builds (and caches) the CFG of a function body.
